@@ -222,7 +222,7 @@ var expectedProbes = map[string][]string{
 	"C03": {"eof-before-warm-up", "unequal-eof", "compared-with-canonical", "buffered-inputs"},
 	"C04": {"producer-stalled-quiescence-observations", "eof-at-cut-point", "suffix-altered-after-cut-point", "cases-proved-by-causality", "cases-with-late-positions", "prefix-runs-compared", "suffix-runs-compared"},
 	"C05": {"eof-before-warm-up", "action-streams-checked", "decorator-warm-up-checked"},
-	"C09": {"calls-alive-at-once", "instance-reused-after-completed-call", "calls-compared-with-fresh-instance", "reports-compared-with-fresh-instance"},
+	"C09": {"calls-alive-at-once", "instance-reused-after-completed-call", "calls-compared-with-fresh-instance", "reports-compared-with-fresh-instance", "canaries-identical-in-all-process-histories", "process-history-orders(fresh-process-each)"},
 	"C10": {"read-issued-right-after-append-returned", "reads-compared-with-model", "getsince-boundaries", "backfilling-appends", "pre-existing-empty-file-A", "pre-existing-header-only-A", "fs-write-error", "fs-close-error", "sql-exec-error", "io-error-reported-by-append", "getsince-bound-in-another-zone"},
 	"C11": {"file-compared-with-model", "shorter-write-over-longer-file", "permuted-header-documents-read", "json-roundtrips", "fragmented-reads", "append-to-missing-file-rejected", "fs-write-error", "fs-close-error", "io-error-reported-by-operation"},
 	"C19": {"read-error-fired", "http-transport-error", "http-non-200-status", "unreadable-file:missing", "unreadable-file:directory", "unreadable-file:symlink-to-directory", "malformed-document", "fragmented-reads", "records-compared-with-reference-decode", "fs-read-error"},
